@@ -7,10 +7,10 @@ CONFIGS = {
               ('norate', '{"c1","c4"}', '{}', 3, 6),
               ('generic', '{}', '{"f1","f2","f3"}', 1, 6), ('generic4', '{}', '{"f1","f3","f4"}', 1, 6),
               ('mixed', '{"c1"}', '{"f1","f2"}', 2, 5)],
-    'thorough': [('money', '{"c1","c2"}', '{}', 5, 9), ('money3', '{"c1","c2","c3"}', '{}', 4, 7),
-                 ('norate', '{"c1","c2","c4"}', '{}', 4, 7),
-                 ('generic', '{}', '{"f1","f2","f3"}', 1, 9), ('generic4', '{}', '{"f1","f2","f3","f4"}', 1, 8),
-                 ('mixed', '{"c1","c2"}', '{"f1","f2"}', 3, 6)],
+    'thorough': [('money', '{"c1","c2"}', '{}', 5, 8), ('money3', '{"c1","c2","c3"}', '{}', 4, 6),
+                 ('norate', '{"c1","c2","c4"}', '{}', 4, 6),
+                 ('generic', '{}', '{"f1","f2","f3"}', 1, 8), ('generic4', '{}', '{"f1","f2","f3","f4"}', 1, 7),
+                 ('mixed', '{"c1","c2"}', '{"f1","f2"}', 3, 5)],
 }
 
 
